@@ -149,6 +149,19 @@ def make_reporting(family, start, days, usage, seed=1):
     return em.HourlyReportingData(fr, is_electricity_data=True)
 
 
+def _nofreq(index):
+    """the same instants on a fresh index object that carries no freq (as an index read from a file does)"""
+    return pd.DatetimeIndex(np.array(index.asi8, copy=True).view("M8[ns]") if str(index.dtype).startswith("datetime64[ns") else index.to_numpy(copy=True), tz="UTC").tz_convert(index.tz)
+
+
+def _meta(a):
+    """metadata of a caller's Series/DataFrame that the value fingerprint does not cover"""
+    if a is None:
+        return "|None"
+    idx = a.index
+    return f"|freq={getattr(idx, 'freq', None)!r}|iname={idx.name!r}|attrs={sorted(a.attrs.items())!r}|flags={a.flags.allows_duplicate_labels}"
+
+
 def out_fp(x):
     return F.fp(x)
 
@@ -203,6 +216,16 @@ def run_graph(case):
                 skipped.append(f"{opn}: data class raised {type(exc).__name__}")
                 continue
             alphabet.append((opn, opn))
+    if family == "hourly_shared_settings":
+        # reporting data that carry the configured supplemental column although this model's baseline did not
+        import opendsm.eemeter as em
+
+        for name, start, ndays in sets[1:3]:
+            fr_occ = ds.hourly_frame(start=start, days=ndays, tz=ZONE, wseed=1, seed=11)
+            fr_occ["occupancy"] = ((fr_occ.index.hour >= 8) & (fr_occ.index.hour < 18)).astype(float)
+            opn = f"predict:{name}_with_supplemental_column:usage"
+            data_objs[opn] = em.HourlyReportingData(fr_occ, is_electricity_data=True)
+            alphabet.insert(1, (opn, opn))
     # the very data object the model was fitted on is also a legitimate argument of predict()
     data_objs["predict:baseline_object:usage"] = bdata
     alphabet.append(("predict:baseline_object:usage", "predict:baseline_object:usage"))
@@ -359,6 +382,11 @@ def run_frames(case):
                 t_forms += [(f"tS:{zlab}", tt), (f"tF:temperature:{zlab}", tt.to_frame("temperature")), (f"tF:temp:{zlab}", tt.to_frame("temp"))]
             for (ml, mv), (tl, tv) in itertools.product(m_forms, t_forms):
                 expanded.append((f"{name}[{ml},{tl}]", ctor, [mv, tv]))
+            m1, t1 = m0.copy(), t0.copy()
+            m1.index, t1.index = _nofreq(m1.index), _nofreq(t1.index)
+            expanded.append((f"{name}[indexes without freq]", ctor, [m1, t1]))
+            if "Reporting" in name:
+                expanded.append((f"{name}[no meter, index without freq]", ctor, [None, t1.copy()]))
         elif len(args) == 1 and isinstance(args[0], pd.DataFrame):
             f0 = args[0]
             expanded.append((name, ctor, [f0]))
@@ -371,6 +399,10 @@ def run_frames(case):
                 expanded.append((name + "[us index]", ctor, [fu]))
             except Exception:
                 pass
+            # the same frame on an index built from values (regular, but carrying no freq): metadata the class might fill in
+            fn = f0.copy()
+            fn.index = _nofreq(fn.index)
+            expanded.append((name + "[index without freq]", ctor, [fn]))
             if "caltrack" not in name:
                 fd = f0.reset_index(names="datetime")
                 expanded.append((name + "[datetime column]", ctor, [fd]))
@@ -385,8 +417,11 @@ def run_frames(case):
     outcomes = []
     refused = []
     for name, ctor, args in entries:
-        args = [a.copy(deep=True) for a in args]
-        before = [F.fp(a) for a in args]
+        args = [a.copy(deep=True) if a is not None else None for a in args]
+        for a in args:
+            if a is not None and "without freq" in name:
+                a.index = _nofreq(a.index)  # copy(deep=True) shares the index's underlying array (and its freq) with the original
+        before = [F.fp(a) + _meta(a) for a in args]
         try:
             d = ctor(*args)
         except Exception as exc:
@@ -398,19 +433,21 @@ def run_frames(case):
             viol.append({"clause": "constructor_raised", "key": dict(key0, entry=name), "detail": f"{type(exc).__name__}: {exc}"})
             continue
         checks += 1
-        after = [F.fp(a) for a in args]
+        after = [F.fp(a) + _meta(a) for a in args]
         if before != after:
             which = [i for i, (x, y) in enumerate(zip(before, after)) if x != y]
             cols = []
             for i in which:
                 a = args[i]
-                cols.append(list(a.columns) if isinstance(a, pd.DataFrame) else a.name)
-            viol.append({"clause": "constructor_modifies_caller_input", "key": dict(key0, entry=name),
-                         "detail": f"argument(s) {which} changed by {name}; columns now {cols}"})
+                cols.append((list(a.columns) if isinstance(a, pd.DataFrame) else a.name, _meta(a)))
+            viol.append({"clause": "constructor_modifies_caller_input", "key": dict(key0, entry=name.split("[")[0], form=name.split("[")[1].rstrip("]") if "[" in name else ""),
+                         "detail": f"argument(s) {which} changed by {name}; columns / metadata now {cols}; metadata before {[before[i].split('|', 1)[1] for i in which]}"})
         # caller keeps writing into its own frame: the data object must not follow
         df_a = d.df
         fa = F.fp(df_a)
         for a in args:
+            if a is None:
+                continue
             try:
                 if isinstance(a, pd.DataFrame):
                     a.iloc[3, -1] = 987654.0
